@@ -520,7 +520,14 @@ func (e *caseEnv) rawStat() {
 	refs, present := e.statSet(n)
 	mw := rapid.SampledFrom([]string{"", "", "0", "1"}).Draw(e.t, "statMaxWait")
 	if mw == "1" && present != len(refs) {
-		mw = "" // maxwaitsec>0 with absent refs legitimately blocks for the whole wait
+		// maxwaitsec>0 with absent refs legitimately blocks for the whole wait: the answer is judged like
+		// any other (the present blobs are reported, the absent ones are not), it just takes a second, so
+		// it is only done now and then and for small batches
+		if n > 20 || rapid.IntRange(0, 3).Draw(e.t, "statLongPollWithAbsent") != 0 {
+			mw = ""
+		} else {
+			evid.R.Label("stat/long-poll-with-absent-ref")
+		}
 	}
 	var sb strings.Builder
 	sb.WriteString("camliversion=1")
